@@ -741,6 +741,9 @@ func (w *World) ruleSWritesPhase(r *Report, runtime bool) {
 		if !runtime && (!w.BuildTime[fn] || w.RunTime[fn]) {
 			continue
 		}
+		if w.irrelevantFn(fn) {
+			continue
+		}
 		r.FuncsAnalysed[fnName(fn)] = true
 		for _, b := range fn.Blocks {
 			for _, in := range b.Instrs {
@@ -851,6 +854,8 @@ func (w *World) classifyRoot(r *Report, rule, key string, fn *ssa.Function, in s
 		r.undec(rule, key, pos, fmt.Sprintf("run-time write through non-receiver parameter %s of %s", x.Name(), fnName(owner)))
 	case *ssa.FreeVar:
 		r.undec(rule, key, pos, "write through unresolved free variable "+x.Name())
+	case *ssa.Convert:
+		r.ok(rule, key, pos, "fresh copy made by a string conversion")
 	case *ssa.Call:
 		// result of a call: fresh objects from constructors are fine at build time
 		if !runtime {
@@ -890,6 +895,13 @@ func ruleSGlobal(w *World, r *Report) {
 	for _, n := range names {
 		g := w.SSA.Members[n].(*ssa.Global)
 		elem := g.Type().(*types.Pointer).Elem()
+		if w.curProp == "C16" {
+			// the cache property only concerns the variable holding the cache
+			pt, ok := elem.(*types.Pointer)
+			if !ok || !hasMutex(pt.Elem()) {
+				continue
+			}
+		}
 		var writes []string
 		var addrTaken []string
 		for _, fn := range w.AllFuncs {
@@ -915,6 +927,53 @@ func ruleSGlobal(w *World, r *Report) {
 					}
 				}
 			}
+		}
+		// the address of the variable (or of a part of it) handed to a call:
+		// the callee (a pointer-receiver method such as (*bytes.Buffer).Write)
+		// mutates memory shared by every goroutine
+		if !isSyncType(elem) {
+			addrs := map[ssa.Value]bool{g: true}
+			for grow := true; grow; {
+				grow = false
+				for _, fn := range w.AllFuncs {
+					eachInstr(fn, false, func(_ *ssa.Function, in ssa.Instruction) {
+						switch x := in.(type) {
+						case *ssa.FieldAddr:
+							if addrs[x.X] && !addrs[x] {
+								addrs[x] = true
+								grow = true
+							}
+						case *ssa.IndexAddr:
+							if addrs[x.X] && !addrs[x] {
+								addrs[x] = true
+								grow = true
+							}
+						}
+					})
+				}
+			}
+			// (globals have no referrer lists: scan the calls)
+			for _, fn := range w.AllFuncs {
+				if fn.Parent() == nil && strings.HasPrefix(fn.Name(), "init") {
+					continue
+				}
+				eachInstr(fn, false, func(_ *ssa.Function, u ssa.Instruction) {
+					ci, ok := u.(ssa.CallInstruction)
+					if !ok {
+						return
+					}
+					for _, arg := range ci.Common().Args {
+						if addrs[arg] {
+							callee := "a call"
+							if f := ci.Common().StaticCallee(); f != nil {
+								callee = f.String()
+							}
+							writes = append(writes, w.instrPos(u)+" in "+fnName(fn)+" (address passed to "+callee+")")
+						}
+					}
+				})
+			}
+			sort.Strings(writes)
 		}
 		pos := w.pos(g.Pos())
 		switch {
@@ -1014,6 +1073,9 @@ func ruleSShared(w *World, r *Report) {
 		return
 	}
 	for _, fn := range shared {
+		if w.irrelevantFn(fn) {
+			continue
+		}
 		r.FuncsAnalysed[fnName(fn)] = true
 		for _, fv := range fn.FreeVars {
 			// type of the captured variable
